@@ -30,6 +30,8 @@ mod gen_c20;
 #[cfg(kani)]
 mod gen_c15;
 #[cfg(kani)]
+mod c15;
+#[cfg(kani)]
 mod c18;
 #[cfg(kani)]
 mod c07;
